@@ -119,3 +119,37 @@ def run(ctx, rep):
     rep.check(sets == {'file_flag_set', 'link_flag_set', 'dir_flag_set'}, 'R-C18-4', 'state_filter marks files, links and directories', sf.file, str(sorted(sets)), function='state_filter', construct='marks')
     fl = {x.callee for x in sf.calls() if x.callee and x.callee.startswith('filter_')}
     rep.check({'filter_path', 'filter_existence', 'filter_correctness'} <= fl or len(fl) >= 3, 'R-C18-4', 'state_filter combines the selection criteria (%s)' % sorted(fl), sf.file, '', function='state_filter', construct='criteria')
+
+    # the selection of check/fix (state_filter) decides about leaves: it must never use the "include by default" variant that
+    # exists for descending into directories, and the directory flag of the rule evaluation has to match the entity kind
+    rep.rule('R-C18-5', 'state_filter: every path test of the selection excludes by default when only include rules are given (is_def_include = 0), with is_dir = 0 for files and links and is_dir = 1 for directories', 3)
+    wrappers = {}
+    for w in P.defined():
+        cs = list(w.calls('filter_element'))
+        if len(cs) == 1 and base(w.name) != 'filter_element' and len(list(w.calls())) == 1:
+            a_dir, a_def = w.const_of(cs[0].ops[4]), w.const_of(cs[0].ops[5])
+            if a_dir is not None and a_def is not None:
+                wrappers[base(w.name)] = (a_dir, a_def)
+    if len(wrappers) < 3:
+        raise AnalysisBroken('filter wrappers over filter_element not found (%s)' % sorted(wrappers))
+    kinds = {'file_flag_set': 0, 'link_flag_set': 0, 'dir_flag_set': 1}
+    seen_k = set()
+    for mark in sf.calls(set(kinds)):
+        # the path tests feeding this mark: wrapper calls in the predecessors' conditions of the marking block (short-circuit chain)
+        tests = []
+        stack = list(sf.pred[mark.block]); vis = set()
+        while stack:
+            b = stack.pop()
+            if b in vis:
+                continue
+            vis.add(b)
+            t = sf.term(b)
+            if t.op == 'br' and len(t.ops) == 3:
+                cc = [c for c in sf.blocks[b] if c.op == 'call' and c.callee in wrappers]
+                if cc:
+                    tests += cc
+                    stack += [p_ for p_ in sf.pred[b] if sf.term(p_).op == 'br' and len(sf.term(p_).ops) == 3 and any(c.op == 'call' and c.callee and c.callee.startswith('filter_') for c in sf.blocks[p_])]
+        want_dir = kinds[mark.callee]
+        bad_ = ['%s (is_dir=%d, include-by-default=%d)' % (c.callee, *wrappers[c.callee]) for c in tests if wrappers[c.callee] != (want_dir, 0)]
+        seen_k.add(mark.callee)
+        rep.check(bool(tests) and not bad_, 'R-C18-5', 'state_filter: path tests guarding %s' % mark.callee, mark.loc(), 'tests: %s' % [c.callee for c in tests] if not bad_ else 'wrong filter variant: %s' % bad_, function='state_filter', construct='variant for %s' % mark.callee)
